@@ -196,9 +196,9 @@ theorem Skip_post (h : Heap α) (count : Int) (s : Slice) (v : Valid h s) (hc : 
       rw [List.length_drop, read_length v]; omega, List.take_length] at this
     exact this
 
-/-- `Skip n` with `n < 0`: nothing happens on an empty slice, index panic (`s[-1]`) otherwise -/
+/-- `Skip n` with `n < 0` is an index panic (`s[n]` is read before anything else) -/
 theorem Skip_neg (h : Heap α) (count : Int) (s : Slice) (hc : count < 0) :
-    Skip g h count s = if s.len = 0 then .ok (.nil, h) else .error .index := by
+    Skip g h count s = .error .index := by
   simp [Skip, hc]
 
 theorem New_post (h : Heap α) : Post h (.ok (New h)) [] := by
